@@ -30,3 +30,11 @@ Theorem C10_metadata_immutable ops s x k v :
   extra_lookup x k (s_extra s) = Some v -> extra_lookup x k (s_extra (fold_left apply ops s)) = Some v.
 Proof. exact (fold_keeps_extra ops s x k v). Qed.
 Print Assumptions C10_metadata_immutable.
+
+(* title and status are those of the last title / status change, or of creation (a later create operation
+   with another id changes nothing) *)
+Theorem C10_title_status i au title msg files rest : (forall o, In o rest -> not_recreate i o) ->
+  let s := compile (OCreate i au title msg files :: rest) in
+  s_title s = fold_left title_step rest title /\ s_status s = fold_left status_step rest 1.
+Proof. exact (compile_title_status i au title msg files rest). Qed.
+Print Assumptions C10_title_status.
